@@ -278,28 +278,54 @@ func (c *concretiser) sharedCacheNoise(ma int) []directive {
 	}
 }
 
+// originOf: the origin of host class h. Classes 0 and 1 are two hosts; 2-5 share the host of class 0 and differ from it
+// and from each other in scheme and / or port only (https on its default port, http and https on one explicit port, http on
+// the default port of https): an origin is the triple of scheme, host and port (RFC 6454).
+func originOf(h int) (scheme, host, explicit, defport string) {
+	switch h {
+	case 2:
+		return "https", "res0.test", "", "443"
+	case 3:
+		return "http", "res0.test", "8443", "80"
+	case 4:
+		return "https", "res0.test", "8443", "443"
+	case 5:
+		return "http", "res0.test", "443", "80"
+	default:
+		return "http", fmt.Sprintf("res%d.test", h), "", "80"
+	}
+}
+
 // URL spellings of URI class u; all are equivalent under RFC 3986 6.2.2-6.2.3.
 func urlOf(u, sp int) string {
-	host := fmt.Sprintf("res%d.test", u/10)
+	scheme, host, explicit, defport := originOf(u / 10)
 	p := pathSuffix(u)
+	port := ""
+	if explicit != "" {
+		port = ":" + explicit
+	}
+	base := scheme + "://" + host + port
 	// (the last path segment contains a dot: an unreserved character like any other)
 	switch sp {
 	case 1:
-		return "HTTP://" + strings.ToUpper(host) + "/v/it.em" + p + "?q=%7e1"
+		return strings.ToUpper(scheme) + "://" + strings.ToUpper(host) + port + "/v/it.em" + p + "?q=%7e1"
 	case 2:
-		return "http://" + host + ":80/v/it.em" + p + "?q=%7E1"
+		if explicit == "" {
+			return scheme + "://" + host + ":" + defport + "/v/it.em" + p + "?q=%7E1"
+		}
+		return base + "/v/it.em" + p + "?q=%7E1"
 	case 3:
-		return "http://" + host + "/v/./x/../it.em" + p + "?q=~1"
+		return base + "/v/./x/../it.em" + p + "?q=~1"
 	case 4:
-		return "http://" + host + "/v/%69t.em" + p + "?q=~1#frag"
+		return base + "/v/%69t.em" + p + "?q=~1#frag"
 	case 5:
-		return "http://" + host + "/%76/it.em" + p + "?q=%7e1"
+		return base + "/%76/it.em" + p + "?q=%7e1"
 	case 6:
-		return "http://" + host + "/v/it%2Eem" + p + "?q=~1"
+		return base + "/v/it%2Eem" + p + "?q=~1"
 	case 7:
-		return "http://" + host + "/v/it%2eem" + p + "?q=%7E1"
+		return base + "/v/it%2eem" + p + "?q=%7E1"
 	default:
-		return "http://" + host + "/v/it.em" + p + "?q=~1"
+		return base + "/v/it.em" + p + "?q=~1"
 	}
 }
 
